@@ -58,25 +58,28 @@ def ReplaySafeRT (cap : Nat) (ttl : Int) (h : List Call) : Prop :=
 /-- "the nonce cache never holds more than its capacity": every observed size is within the capacity -/
 def SizeBounded (cap : Nat) (sizes : List Nat) : Prop := ∀ k ∈ sizes, k ≤ cap
 
-/-- executable form of `ReplaySafe` for one chosen pair of positions (used by the driver's monitor):
-`none` = the hypotheses do not apply, `some ok` = they apply and `ok` tells whether `b` was rejected -/
-def checkPair (cap : Nat) (ttl : Int) (a : Call) (mid : List Call) (b : Call) : Option Bool :=
-  if a.res = true ∧ b.nonce = a.nonce ∧ (mid ++ [b]).all (fun c => c.now < a.now + ttl)
+/-- executable form of `ReplaySafe` (`rt = false`) / `ReplaySafeRT` (`rt = true`) for one chosen pair of
+positions (used by the driver's monitor): `none` = the hypotheses do not apply, `some ok` = they apply and
+`ok` tells whether `b` was rejected -/
+def checkPair (rt : Bool) (cap : Nat) (ttl : Int) (a : Call) (mid : List Call) (b : Call) : Option Bool :=
+  if a.res = true ∧ b.nonce = a.nonce
+      ∧ (if rt then decide (b.time < a.now + ttl) else (mid ++ [b]).all (fun c => c.now < a.now + ttl)) = true
       ∧ (distinctOthers a.nonce mid).length < cap
   then some (b.res == false) else none
 
-/-- all violating pairs `(i, j)` of a history (empty = `ReplaySafe` holds on it) -/
-def violationsFrom (cap : Nat) (ttl : Int) : Nat → List Call → List (Nat × Nat)
-  | _, [] => []
-  | i, a :: rest =>
-    let rec scan (mid : List Call) (j : Nat) : List Call → List (Nat × Nat)
-      | [] => []
-      | b :: post =>
-        (match checkPair cap ttl a mid.reverse b with
-         | some false => [(i, j)]
-         | _ => []) ++ scan (b :: mid) (j + 1) post
-    scan [] (i + 1) rest ++ violationsFrom cap ttl (i + 1) rest
+/-- pairs `(i, j)` with `a` at position `i` fixed, scanning `b` over the rest (`mid` accumulates reversed) -/
+def scanPairs (rt : Bool) (cap : Nat) (ttl : Int) (i : Nat) (a : Call) : List Call → Nat → List Call → List (Nat × Nat)
+  | _, _, [] => []
+  | mid, j, b :: post =>
+    (match checkPair rt cap ttl a mid.reverse b with
+     | some false => [(i, j)]
+     | _ => []) ++ scanPairs rt cap ttl i a (b :: mid) (j + 1) post
 
-def violations (cap : Nat) (ttl : Int) (h : List Call) : List (Nat × Nat) := violationsFrom cap ttl 0 h
+/-- all violating pairs `(i, j)` of a history (empty = the history is replay-safe) -/
+def violationsFrom (rt : Bool) (cap : Nat) (ttl : Int) : Nat → List Call → List (Nat × Nat)
+  | _, [] => []
+  | i, a :: rest => scanPairs rt cap ttl i a [] (i + 1) rest ++ violationsFrom rt cap ttl (i + 1) rest
+
+def violations (rt : Bool) (cap : Nat) (ttl : Int) (h : List Call) : List (Nat × Nat) := violationsFrom rt cap ttl 0 h
 
 end VgiVerif.C23.Spec
